@@ -35,7 +35,7 @@ def ensure_tools():
     return rw
 
 
-def make_overlay(unit, scratch):
+def make_overlay(unit, scratch, race=False):
     """Overlay = harness files (in-package tests) + engine packages (virtual) +
     rewritten copies of the current sources. /repo itself is never written."""
     rep = {}
@@ -57,7 +57,7 @@ def make_overlay(unit, scratch):
                 continue
             rep[os.path.join(REPO, "zzverif", eng, os.path.basename(f))] = f
     rw = unit.get("rewrite")
-    if rw:
+    if rw and not race:  # the -race pass runs the untouched sources free-running
         tool = ensure_tools()
         outdir = os.path.join(scratch, "rw-" + unit["name"])
         os.makedirs(outdir, exist_ok=True)
@@ -79,14 +79,14 @@ def make_overlay(unit, scratch):
                 rep[f] = dst
     for extra_dst, extra_src in unit.get("overlay_extra", {}).items():
         rep[os.path.join(REPO, extra_dst)] = os.path.join(VERIF, extra_src)
-    ov = os.path.join(scratch, "overlay-" + unit["name"] + ".json")
+    ov = os.path.join(scratch, "overlay-" + unit["name"] + (".race" if race else "") + ".json")
     with open(ov, "w") as fh:
         json.dump({"Replace": rep}, fh, indent=1)
     return ov
 
 
 def build_unit(unit, scratch, race=False):
-    ov = make_overlay(unit, scratch)
+    ov = make_overlay(unit, scratch, race)
     out = os.path.join(scratch, unit["name"] + (".race" if race else "") + ".test")
     pkg = "./" + unit["pkg"] if unit["pkg"] != "." else "."
     cmd = ["go", "test", "-c", "-tags", "verif", "-vet=off", "-overlay", ov, "-o", out]
@@ -169,6 +169,9 @@ def run_property(pid, tier, only_unit=None, extra_env=None, keep=False):
                 env = {"VERIF_SHARD": s, "VERIF_SHARDS": shards}
                 if race:
                     env["VERIF_FREE"] = "1"
+                    env["GORACE"] = "halt_on_error=0 exitcode=66"
+                else:
+                    env.update(u.get("sched_env", {}))
                 if extra_env:
                     env.update(extra_env)
                 lp = os.path.join(logs_dir, "%s%s.%d.log" % (u["name"], ".race" if race else "", s))
